@@ -32,6 +32,9 @@ def run(ctx):
     c01.p2(ctx, R)
     c01.p5_p9(ctx, R)
     c01.g4(ctx, R)
+    c01.p13(ctx, R)
+    c01.p14(ctx, R)
+    c01.p15(ctx, R)
     p10(ctx, R)
     p11(ctx, R)
     g7(ctx, R)
